@@ -95,7 +95,8 @@ inline size_t copyArray(JsonVariantConst src, char (&dst)[N]) {
   size_t len = N - 1;
   if (len > s.size())
     len = s.size();
-  memcpy(dst, s.c_str(), len);
+  if (len)  // s.c_str() is null when src is not a string
+    memcpy(dst, s.c_str(), len);
   dst[len] = 0;
   return 1;
 }
